@@ -620,7 +620,7 @@ impl SymbolTable {
 
         let mut cursor: Option<Cursor> = None;
         let mut label_map: HashMap<String, SymbolData> = HashMap::new();
-        let mut rel_map = HashMap::new();
+        let mut fill_label_uses: Vec<(u16, String)> = vec![];
         let mut debug_sym = src.map(|s| {
             let src_info = SourceInfo::new(s);
             (vec![None; src_info.count_lines()], src_info)
@@ -660,13 +660,11 @@ impl SymbolTable {
                     add_label(&mut label_map, label, 0, true)?;
                 }
                 StmtKind::Directive(Directive::Fill(PCOffset::Label(label))) => {
-                    let label_text = label.name.to_uppercase();
-                    if let Some(SymbolData { external: true, .. }) = label_map.get(&label_text) {
-                        let Some(cur) = cursor.as_ref() else {
-                            return Err(AsmErr::new(AsmErrKind::UndetAddrStmt, stmt.span.clone()));
-                        };
-
-                        rel_map.insert(cur.lc, label_text);
+                    // Whether this needs a relocation entry is only known once every label has been seen
+                    // (the label may be declared external after this use), so just note the use here.
+                    // (A .fill outside of a block is reported by the second pass.)
+                    if let Some(cur) = cursor.as_ref() {
+                        fill_label_uses.push((cur.lc, label.name.to_uppercase()));
                     }
                 },
                 _ => {}
@@ -696,6 +694,11 @@ impl SymbolTable {
             return Err(AsmErr::new(AsmErrKind::UnclosedOrig, cur.block_orig));
         }
         
+        // Relocation table: every `.fill LABEL` whose label is external.
+        let rel_map = fill_label_uses.into_iter()
+            .filter(|(_, label)| matches!(label_map.get(label), Some(SymbolData { external: true, .. })))
+            .collect();
+
         let debug_symbols = debug_sym.map(|(lines, src_info)| DebugSymbols {
             line_map: LineSymbolMap::new(lines)
             .unwrap_or_else(|| {
